@@ -92,7 +92,6 @@ Qed.
 Section Group.
   Variable H : N -> bytes -> bytes.
   Notation h := (H K512_256).
-  Hypothesis H_len : forall x, length (h x) = 32%nat.
 
   Definition group_bound_prop (g : list gtx) : Prop :=
     match g with
@@ -243,6 +242,8 @@ Section Group.
   Qed.
 
   (* ---- the group id binds the ordered member list ---- *)
+  Hypothesis H_len : forall x, length (h x) = 32%nat.
+
   Lemma items_length : forall ids : list bytes, Forall (fun d => length d = 32%nat) ids ->
     length (flat_map (fun d => [196; 32] ++ d) ids) = (34 * length ids)%nat.
   Proof.
